@@ -87,6 +87,55 @@ macro_rules! clones {
     }};
 }
 
+/// Provided iterator methods that an implementation may override (nth, last, fold, ...) must
+/// agree with stepping by next(): for every prefix j and every n.
+macro_rules! derived {
+    ($cx:expr, $pm:expr, $name:expr, $mk:expr, $proj:expr, $order:expr) => {{
+        let order: &Vec<Obs> = $order;
+        let total = order.len();
+        for j in 0..=total {
+            for n in 0..=(total - j + 1) {
+                let mut it = $mk;
+                for _ in 0..j {
+                    it.next();
+                }
+                let r = it.nth(n).map($proj);
+                let want = order.get(j + n).copied();
+                $cx.check($pm, r == want, || format!("{}: after {j} items nth({n}) gives {r:?}, stepping gives {want:?}", $name));
+                let rem = total.saturating_sub(j + n + 1);
+                let l = ExactSizeIterator::len(&it);
+                $cx.check($pm, l == rem, || format!("{}: after {j} items and nth({n}) len() is {l}, expected {rem}", $name));
+                let nx = it.next().map($proj);
+                let want = order.get(j + n + 1).copied();
+                $cx.check($pm, nx == want, || format!("{}: after {j} items and nth({n}) next() gives {nx:?}, expected {want:?}", $name));
+            }
+            let mut it = $mk;
+            for _ in 0..j {
+                it.next();
+            }
+            let l = it.last().map($proj);
+            let want = if j < total { order.last().copied() } else { None };
+            $cx.check($pm, l == want, || format!("{}: after {j} items last() gives {l:?}, expected {want:?}", $name));
+            let mut it = $mk;
+            for _ in 0..j {
+                it.next();
+            }
+            let folded: Vec<Obs> = it.fold(Vec::new(), |mut acc, x| {
+                acc.push(($proj)(x));
+                acc
+            });
+            $cx.check($pm, folded[..] == order[j..], || format!("{}: after {j} items fold visits {folded:?}, stepping gives {:?}", $name, &order[j..]));
+            let mut it = $mk;
+            for _ in 0..j {
+                it.next();
+            }
+            let skipped: Vec<Obs> = it.skip(1).step_by(2).map($proj).collect();
+            let want: Vec<Obs> = order[j..].iter().skip(1).step_by(2).copied().collect();
+            $cx.check($pm, skipped == want, || format!("{}: after {j} items skip(1).step_by(2) gives {skipped:?}, expected {want:?}", $name));
+        }
+    }};
+}
+
 fn borrowing_map<const N: usize>(sys: &MapSys<Kx, Vx, N>, path: &[u32], cx: &mut Ctx) {
     let pm = C09;
     let mut b = sys.build(path, cx);
@@ -120,16 +169,19 @@ fn borrowing_map<const N: usize>(sys: &MapSys<Kx, Vx, N>, path: &[u32], cx: &mut
         cx.check(pm, o1 == o3, || "(&map).into_iter() order differs from iter()".to_string());
         counts!(cx, pm, "iter()", m.iter(), total);
         clones!(cx, pm, "iter()", m.iter(), pkv, &o1);
+        derived!(cx, pm, "iter()", m.iter(), pkv, &o1);
         let k1 = walk!(cx, pm, "keys()", m.keys(), pk, &want_k);
         let k2 = walk!(cx, pm, "keys() again", m.keys(), pk, &want_k);
         cx.check(pm, k1 == k2, || "keys(): two traversals differ".to_string());
         counts!(cx, pm, "keys()", m.keys(), total);
         clones!(cx, pm, "keys()", m.keys(), pk, &k1);
+        derived!(cx, pm, "keys()", m.keys(), pk, &k1);
         let v1 = walk!(cx, pm, "values()", m.values(), pv, &want_v);
         let v2 = walk!(cx, pm, "values() again", m.values(), pv, &want_v);
         cx.check(pm, v1 == v2, || "values(): two traversals differ".to_string());
         counts!(cx, pm, "values()", m.values(), total);
         clones!(cx, pm, "values()", m.values(), pv, &v1);
+        derived!(cx, pm, "values()", m.values(), pv, &v1);
         // keys()/values() are projections of iter(): same order
         let proj_ok = o1.iter().map(|o| (o.0, None)).collect::<Vec<Obs>>() == k1 && o1.iter().map(|o| (None, o.1)).collect::<Vec<Obs>>() == v1;
         cx.check(pm, proj_ok, || "keys()/values() do not follow the order of iter()".to_string());
@@ -157,8 +209,10 @@ fn borrowing_map<const N: usize>(sys: &MapSys<Kx, Vx, N>, path: &[u32], cx: &mut
         let o2 = walk!(cx, pm, "(&mut map).into_iter()", (&mut *m).into_iter(), pkv, &want_kv);
         cx.check(pm, o1 == o2, || "iter_mut(): two traversals differ".to_string());
         counts!(cx, pm, "iter_mut()", m.iter_mut(), total);
+        derived!(cx, pm, "iter_mut()", m.iter_mut(), pkv, &o1);
         let v1 = walk!(cx, pm, "values_mut()", m.values_mut(), pv, &want_v);
         counts!(cx, pm, "values_mut()", m.values_mut(), total);
+        derived!(cx, pm, "values_mut()", m.values_mut(), pv, &v1);
         cx.check(pm, o1.iter().map(|o| (None, o.1)).collect::<Vec<Obs>>() == v1, || "values_mut() does not follow the order of iter_mut()".to_string());
         let d: micromap::IterMut<'_, Kx, Vx> = Default::default();
         cx.check(pm, d.len() == 0, || "IterMut::default() is not empty".to_string());
@@ -227,6 +281,7 @@ fn borrowing_set<const N: usize>(sys: &SetSys<Kx, N>, path: &[u32], cx: &mut Ctx
         cx.check(pm, o1 == o2, || "Set::iter(): two traversals differ".to_string());
         counts!(cx, pm, "Set::iter()", s.iter(), total);
         clones!(cx, pm, "Set::iter()", s.iter(), pk, &o1);
+        derived!(cx, pm, "Set::iter()", s.iter(), pk, &o1);
     }
     flush_ledger(cx, pm | C02, "Set iteration");
     sys.teardown(b, cx, C02);
@@ -429,6 +484,140 @@ fn consume_map_once<const N: usize>(msys: &MapSys<Kx, Vx, N>, path: &[u32], kind
     check_live(cx, C02 | pm, Vec::new(), &leak_ok, "at the end");
 }
 
+/// nth()/last()/fold() on the consuming iterators and drains, against the order observed by
+/// stepping a freshly rebuilt container with next() (rebuilds are deterministic).
+fn derived_consuming<const N: usize>(msys: &MapSys<Kx, Vx, N>, ssys_path: Option<(&SetSys<Kx, N>, &[u32])>, path: &[u32], cx: &mut Ctx) {
+    let pm = C10;
+    // map kinds
+    for kind in [Kind::IntoIter, Kind::IntoKeys, Kind::IntoValues, Kind::Drain] {
+        // reference order by next()
+        let mut order: Vec<(u8, u8, u8)> = Vec::new();
+        {
+            let mut b = msys.build(path, cx);
+            match kind {
+                Kind::IntoIter => order.extend(std::mem::take(&mut b.bx.c).into_iter().map(|(k, v)| (k.k, k.tag, v.v))),
+                Kind::IntoKeys => order.extend(std::mem::take(&mut b.bx.c).into_keys().map(|k| (k.k, k.tag, 0))),
+                Kind::IntoValues => order.extend(std::mem::take(&mut b.bx.c).into_values().map(|v| (0, 0, v.v))),
+                _ => order.extend(b.bx.c.drain().map(|(k, v)| (k.k, k.tag, v.v))),
+            }
+        }
+        let total = order.len();
+        for j in 0..=total {
+            for n in 0..=(total - j + 1) {
+                for mode in 0..3u8 {
+                    // mode 0: nth(n) then next(); mode 1 (n == 0 only): last(); mode 2 (n == 0 only): fold
+                    if mode > 0 && n > 0 {
+                        continue;
+                    }
+                    cx.here.op = format!("{kind:?}: after {j} items {}", ["nth(n)", "last()", "fold"][mode as usize]);
+                    cx.evaluations += 1;
+                    let mut b = msys.build(path, cx);
+                    pl::take_violations();
+                    macro_rules! drive {
+                        ($it:expr, $proj:expr) => {{
+                            let mut it = $it;
+                            for _ in 0..j {
+                                it.next();
+                            }
+                            match mode {
+                                0 => {
+                                    let r = it.nth(n).map($proj);
+                                    let want = order.get(j + n).copied();
+                                    cx.check(pm, r == want, || format!("{kind:?}: after {j} items nth({n}) gives {r:?}, stepping gives {want:?}"));
+                                    let rem = total.saturating_sub(j + n + 1);
+                                    let l = ExactSizeIterator::len(&it);
+                                    let sh = it.size_hint();
+                                    cx.check(pm, l == rem && sh == (rem, Some(rem)), || format!("{kind:?}: after {j} items and nth({n}) len() is {l} / size_hint {sh:?}, expected {rem}"));
+                                    let nx = it.next().map($proj);
+                                    let want = order.get(j + n + 1).copied();
+                                    cx.check(pm, nx == want, || format!("{kind:?}: after {j} items and nth({n}) next() gives {nx:?}, expected {want:?}"));
+                                    if r.is_none() {
+                                        let again = it.next().map($proj);
+                                        cx.check(pm, again.is_none(), || format!("{kind:?}: yields {again:?} after nth({n}) had reported the end"));
+                                    }
+                                }
+                                1 => {
+                                    let l = it.last().map($proj);
+                                    let want = if j < total { order.last().copied() } else { None };
+                                    cx.check(pm, l == want, || format!("{kind:?}: after {j} items last() gives {l:?}, expected {want:?}"));
+                                }
+                                _ => {
+                                    let folded: Vec<(u8, u8, u8)> = it.fold(Vec::new(), |mut acc, x| {
+                                        acc.push(($proj)(x));
+                                        acc
+                                    });
+                                    cx.check(pm, folded[..] == order[j..], || format!("{kind:?}: after {j} items fold visits {folded:?}, stepping gives {:?}", &order[j..]));
+                                }
+                            }
+                        }};
+                    }
+                    match kind {
+                        Kind::IntoIter => drive!(std::mem::take(&mut b.bx.c).into_iter(), |(k, v): (Kx, Vx)| (k.k, k.tag, v.v)),
+                        Kind::IntoKeys => drive!(std::mem::take(&mut b.bx.c).into_keys(), |k: Kx| (k.k, k.tag, 0)),
+                        Kind::IntoValues => drive!(std::mem::take(&mut b.bx.c).into_values(), |v: Vx| (0, 0, v.v)),
+                        _ => {
+                            drive!(b.bx.c.drain(), |(k, v): (Kx, Vx)| (k.k, k.tag, v.v));
+                            cx.check(pm, b.bx.c.is_empty(), || "map not empty after the drain was dropped".to_string());
+                        }
+                    }
+                    flush_ledger(cx, C02 | pm, "derived iterator methods");
+                    let mc::mapsys::Built { bx, probes, .. } = b;
+                    drop(bx);
+                    drop(probes);
+                    flush_ledger(cx, C02 | pm, "dropping after derived iterator methods");
+                    check_live(cx, C02 | pm, Vec::new(), &[], "after nth/last/fold on a consuming iterator");
+                }
+            }
+        }
+    }
+    if let Some((ssys, spath)) = ssys_path {
+        for kind in [Kind::SetIntoIter, Kind::SetDrain] {
+            let mut order: Vec<(u8, u8)> = Vec::new();
+            {
+                let mut b = ssys.build(spath, cx);
+                if kind == Kind::SetDrain {
+                    order.extend(b.bx.c.drain().map(|k| (k.k, k.tag)));
+                } else {
+                    order.extend(std::mem::take(&mut b.bx.c).into_iter().map(|k| (k.k, k.tag)));
+                }
+            }
+            let total = order.len();
+            for j in 0..=total {
+                for n in 0..=(total - j + 1) {
+                    cx.here.op = format!("{kind:?}: after {j} items nth({n})");
+                    cx.evaluations += 1;
+                    let mut b = ssys.build(spath, cx);
+                    pl::take_violations();
+                    macro_rules! drive_s {
+                        ($it:expr) => {{
+                            let mut it = $it;
+                            for _ in 0..j {
+                                it.next();
+                            }
+                            let r = it.nth(n).map(|k: Kx| (k.k, k.tag));
+                            let want = order.get(j + n).copied();
+                            cx.check(pm, r == want, || format!("{kind:?}: after {j} items nth({n}) gives {r:?}, stepping gives {want:?}"));
+                            let rem = total.saturating_sub(j + n + 1);
+                            let l = ExactSizeIterator::len(&it);
+                            cx.check(pm, l == rem, || format!("{kind:?}: after {j} items and nth({n}) len() is {l}, expected {rem}"));
+                            let nx = it.next().map(|k: Kx| (k.k, k.tag));
+                            let want = order.get(j + n + 1).copied();
+                            cx.check(pm, nx == want, || format!("{kind:?}: after {j} items and nth({n}) next() gives {nx:?}, expected {want:?}"));
+                        }};
+                    }
+                    if kind == Kind::SetDrain {
+                        drive_s!(b.bx.c.drain());
+                    } else {
+                        drive_s!(std::mem::take(&mut b.bx.c).into_iter());
+                    }
+                    flush_ledger(cx, C02 | pm, "derived iterator methods (set)");
+                    ssys.teardown(b, cx, C02 | pm);
+                }
+            }
+        }
+    }
+}
+
 fn consuming_set<const N: usize>(ssys: &SetSys<Kx, N>, path: &[u32], cx: &mut Ctx) {
     let pm = C10;
     let len = {
@@ -517,10 +706,12 @@ fn run_n<const N: usize>(rep: &mut EngineReport, nk: u8, nv: u8, threads: usize,
             cx.here.path = path.iter().map(|i| ssys.ops[*i as usize].to_string()).collect();
             borrowing_set::<N>(&ssys, &path, &mut cx);
             consuming_set::<N>(&ssys, &path, &mut cx);
+            derived_consuming::<N>(&msys, Some((&ssys, &path)), &[], &mut cx);
         } else {
             cx.here.path = path.iter().map(|i| msys.ops[*i as usize].to_string()).collect();
             borrowing_map::<N>(&msys, &path, &mut cx);
             consuming::<N>(&msys, &path, &mut cx);
+            derived_consuming::<N>(&msys, None, &path, &mut cx);
         }
         let v: Vec<J> = cx.best.iter().flatten().map(|b| b.to_json()).collect();
         let n = v.len();
@@ -547,6 +738,7 @@ fn run_n<const N: usize>(rep: &mut EngineReport, nk: u8, nv: u8, threads: usize,
         }
         borrowing_map::<N>(&msys, &path, lcx);
         consuming::<N>(&msys, &path, lcx);
+        derived_consuming::<N>(&msys, None, &path, lcx);
         lcx.sample(|| J::obj().set("history", lcx_path(&path, &msys)).set("state", mout.states[s].snap.render()).set("observed", "all iterator kinds x every step"));
     });
     par_states(sout.states.len(), threads, &mut cx, |s, lcx| {
@@ -562,6 +754,7 @@ fn run_n<const N: usize>(rep: &mut EngineReport, nk: u8, nv: u8, threads: usize,
         }
         borrowing_set::<N>(&ssys, &path, lcx);
         consuming_set::<N>(&ssys, &path, lcx);
+        derived_consuming::<N>(&msys, Some((&ssys, &path)), &[], lcx);
     });
     rep.configs.push(
         J::obj()
